@@ -8,9 +8,10 @@ From GS Require Import LTS HttpCfg HttpServer HttpCfgProofs HttpInv HttpInvStep 
 Import ListNotations.
 
 Section Progress.
+  Variable stop_locked : bool.
   Variable validated : bool.
   Variable mux_ok : list str -> bool.
-  Notation step := (step validated mux_ok).
+  Notation step := (step stop_locked validated mux_ok).
 
   Record Inv0 (s : state) : Prop := {
     z_free : holder s = None <-> kpc s = KFree;
@@ -62,6 +63,13 @@ Section Progress.
     assert (Hrel : forall i, holder s = Some (ByReload i) -> fsm_st s = FReloading).
     { intros i E. destruct (Zl i E) as [?|[_ X]]; [assumption|]. unfold run_returned in X. rewrite Er in X. discriminate. }
     cbn [fsm_st with_env] in H.
+    destruct stop_locked.
+    { injection H as <-. constructor; cbn; auto.
+      + intros E. contradiction.
+      + intros [?|?]; discriminate.
+      + intros i E. left. exact (Hrel i E).
+      + intros [?|?]; discriminate.
+      + intros [?|[?|?]]; discriminate. }
     destruct (fsm_allowed (fsm_st s) FStopping) eqn:Ea; injection H as <-.
     - constructor; cbn; auto.
       + intros E. contradiction.
@@ -98,11 +106,20 @@ Section Progress.
       eexists. split; [rewrite nth_error_app2, Nat.sub_diag by lia; reflexivity|reflexivity].
   Qed.
 
+  Lemma inv0_ServeSkip s s' sid : Inv0 s -> step s (LServeSkip sid) = Some s' -> Inv0 s'.
+  Proof.
+    intros I H. destruct I as [Zf Zr Zp Zl Zn Zb Zq]. open_step H.
+    destruct (crashed s); [discriminate|]. destruct (srv_at s sid); [|discriminate].
+    destruct (server s) eqn:Es; [discriminate|]. destruct (_ && _); [|discriminate]. injection H as <-.
+    constructor; cbn; auto.
+    intros j Hk. destruct (Zq j Hk) as (A & _). congruence.
+  Qed.
+
   Lemma inv0_step s l s' : Inv0 s -> step s l = Some s' -> Inv0 s'.
   Proof.
     intros I H.
     destruct l; try (eapply inv0_RunWake; eassumption); try (eapply inv0_BootCrash; eassumption);
-      try (eapply inv0_BootCreate; eassumption).
+      try (eapply inv0_BootCreate; eassumption); try (eapply inv0_ServeSkip; eassumption).
     all: destruct I as [Zf Zr Zp Zl Zn Zb Zq]; open_step H; crush_step H.
     all: try (constructor; cbn; assumption).
     (* serve goroutines: only a pc changes *)
@@ -110,7 +127,7 @@ Section Progress.
               | |- Inv0 (with_srvnet _ (upd_srv _ _ (set_pc _)) _) => idtac
               | |- Inv0 (with_errs (with_srvnet _ (upd_srv _ _ (set_pc _)) _) _) => idtac
               end;
-              constructor; cbn; auto; intros j Hk; destruct (Zq j Hk) as (A & B & C);
+              constructor; cbn; auto; intros j Hk; destruct (Zq j Hk) as (A & B & C); try discriminate;
               split; [exact A|]; split; [exact B|]; apply probe_keep_pc; exact C).
     (* boot creates the server *)
     all: try (match goal with
